@@ -30,14 +30,26 @@ type srcProbe struct {
 	mu     sync.Mutex
 	notes  []string
 	writes int64
+	// seventh wave (nullslots.go)
+	seed       int64  // of the destinations with null slots, fixed per case
+	nullMerges int64  // merges into such destinations followed by the writes
+	sig        string // narrow sig of notes[0], "" = sigLiveDst
 }
 
-func (p *srcProbe) note(s string) {
+// noteSig: a note with a sig of its own.
+func (p *srcProbe) noteSig(sig, s string) {
 	p.mu.Lock()
+	if len(p.notes) == 0 {
+		p.sig = sig
+	}
 	if len(p.notes) < 4 {
 		p.notes = append(p.notes, s)
 	}
 	p.mu.Unlock()
+}
+
+func (p *srcProbe) note(s string) {
+	p.noteSig("", s)
 }
 
 func (p *srcProbe) take() (string, int64) {
@@ -251,7 +263,7 @@ func destinationOps(c, captured *ucfg.Config, o []ucfg.Option, p *srcProbe) []op
 			return dst, dst.Merge(captured, ucfg.PathSep("."))
 		}))
 	}
-	return l
+	return append(l, nullSlotOps(c, p, fp0, h0)...)
 }
 
 func b2u(b bool) uint64 {
